@@ -1,5 +1,15 @@
 """C20: values cross the Go boundary without change."""
 import vlib
+
+def time_payload(rng):
+    """a time value: unix nanoseconds in UTC or in a zone with a fixed offset; the zero time.Time, also carrying a zone"""
+    k = rng.randrange(8)
+    n = str(rng.choice([0, 1, -1, rng.randrange(-10**18, 10**18)]))
+    if k <= 3: return n
+    if k <= 5: return n + "@" + str(rng.choice([3600, -18000, 1, 50400]))
+    if k == 6: return "zero"
+    return "zero@" + str(rng.choice([3600, -18000, 1]))
+
 from vlib import mk_case, hexs
 
 TRUSTED = ["correspondence harness /verif/harness (Go) and extracted model /verif/ocaml/ugom (ExtrOcamlBasic only)"]
@@ -48,7 +58,7 @@ def gen_pvalue(rng, depth, plain=True):
             k = rng.randrange(5)
             if k == 0: i = rng.randrange(1, 4); return ["e", str(i), hexs(b"error"), hexs(STRS[i])]
             if k == 1: return ["fn", hexs(b"f%d" % rng.randrange(3))]
-            if k == 2: return ["o", hexs(b"time"), hexs(str(rng.randrange(-10**18, 10**18)).encode())]
+            if k == 2: return ["o", hexs(b"time"), hexs(time_payload(rng).encode())]
             if k == 3: return ["o", hexs(b"rawMessage"), hexs(rng.choice(STRS))]
             return ["o", hexs(b"location"), hexs(b"UTC")]
         return gen_scalar(rng)
@@ -87,8 +97,8 @@ def gen_goval(rng, depth, canonical=False):
         if k == 19: return ["dur", str(rng.choice(INTS))]
         if k == 20:
             t = rng.choice(["time.Time", "*time.Time", "*time.Location", "json.RawMessage"])
-            if t == "time.Time": return ["reg", hexs(t), hexs(str(rng.randrange(-10**18, 10**18)).encode())]
-            if t == "*time.Time": return ["reg", hexs(t), rng.choice(["nil", hexs(str(rng.randrange(-10**18, 10**18)).encode())])]
+            if t == "time.Time": return ["reg", hexs(t), hexs(time_payload(rng).encode())]
+            if t == "*time.Time": return ["reg", hexs(t), rng.choice(["nil", hexs(time_payload(rng).encode())])]
             if t == "*time.Location": return ["reg", hexs(t), rng.choice(["nil", hexs(b"UTC")])]
             return ["reg", hexs(t), rng.choice(["nil"] + [hexs(s) for s in STRS])]
         if k == 21: return ["other", hexs(rng.choice(["main.otherType", "*main.otherType", "complex128", "[]int", "map[int]string", "chan int", "struct {}", "[]string"]))]
@@ -216,6 +226,10 @@ def run(rep, br, proofs, rng, tier):
                     oracle_fail.append((c, "integer width changed the numeric value"))
             elif c["kind"] == "toobjalt":
                 oracle_fail.append((c, "ToObjectAlt rejected a supported integer width"))
+        elif c["kind"] in ("toobj", "toobjalt") and a[0] == "reg" and a[1] in (hexs(b"time.Time"), hexs(b"*time.Time")) and a[2] != "nil":
+            # a time value (instant and zone) arrives unchanged
+            if out != "(ok (o %s %s))" % (hexs(b"time"), a[2]):
+                oracle_fail.append((c, "a time.Time value changed on the way in: %s became %s" % (vlib.unhex(a[2]).decode(), out[:200])))
         elif c["kind"] in ("toobj", "toobjalt") and a[0] == "f32":
             import struct
             x = struct.unpack(">f", struct.pack(">I", int(a[1], 16)))[0]
